@@ -66,4 +66,49 @@ example : ¬ SchemaOk [mk "R2" 0 ["Next_Id"] false true "" 0 ["Id"] false true "
   revert this
   decide
 
+
+/-- two associations whose numbers share a prefix (R1 / R12), both formalised in class 0 (harness shape `prefix_rels`) -/
+def shapePrefixRels : Schema :=
+  [mk "R1" 0 ["B_Id"] true true "" 1 ["Id"] false false "", mk "R12" 0 ["D_Id"] true true "" 2 ["Id"] false false ""]
+
+/-- every shape of the harness (meta_common.SHAPES) -/
+def allShapes : List Schema :=
+  [shapeOneOne, shapeOneMany, shapeManyOneUncond, shapeReflexive, shapeAssocClass, shapeSubsuper, shapeSharedRef,
+   shapeTwoReflexive, shapePhrased, shapeRefIdChain, shapePrefixRels]
+
+/-- a rank on the attributes of a shape: an own id that no association formalises ranks 0, an `Id` that is itself
+    referential (subtype ids, the middle of the A.B_Id → B.Id → C.Id chain) 1, every other referential attribute 2 -/
+def shapeRank (sch : Schema) (k : Kind) (name : String) : Nat :=
+  if name = "Id" then (if sch.any (fun a => a.srcKind == k && a.srcKeys.contains "Id") then 1 else 0) else 2
+
+theorem shapeRank_le (sch : Schema) (k : Kind) (name : String) : shapeRank sch k name ≤ 2 := by
+  unfold shapeRank
+  split
+  · split <;> omega
+  · omega
+
+/-- Boolean form of `AttrRank sch (shapeRank sch)` -/
+def attrRankCheck (sch : Schema) : Bool :=
+  sch.all (fun a => (keyPairs a).all (fun p => decide (shapeRank sch a.tgtKind p.2 < shapeRank sch a.srcKind p.1)))
+
+theorem attrRank_of_check {sch : Schema} (h : attrRankCheck sch = true) : AttrRank sch (shapeRank sch) := by
+  intro a ha p hp
+  have := List.all_eq_true.mp h a ha
+  have := List.all_eq_true.mp this p hp
+  simpa using this
+
+/-- the referential keys of no harness shape refer to one another in a cycle: `shapeRank` drops along every key pair, it never
+    exceeds 2, every shape has at least one referential key — so with one instance or more the driver's fuel bound
+    `rank ≤ count + layerBound` holds for every read (docs/audit-round4.md, finding 10) -/
+theorem shapes_attrRank : ∀ sch ∈ allShapes, AttrRank sch (shapeRank sch) ∧ 1 ≤ layerBound sch := by
+  intro sch h
+  simp only [allShapes, List.mem_cons, List.not_mem_nil, or_false] at h
+  rcases h with rfl | rfl | rfl | rfl | rfl | rfl | rfl | rfl | rfl | rfl | rfl <;>
+    exact ⟨attrRank_of_check (by decide), by decide⟩
+
+theorem shapes_all_schemaOk : ∀ sch ∈ allShapes, SchemaOk sch := by
+  intro sch h
+  simp only [allShapes, List.mem_cons, List.not_mem_nil, or_false] at h
+  rcases h with rfl | rfl | rfl | rfl | rfl | rfl | rfl | rfl | rfl | rfl | rfl <;> exact schemaOk_of_check (by decide)
+
 end Pyx.Meta
